@@ -186,7 +186,43 @@ def build(tT, sibling_tape=None):
 # ---------------------------------------------------------------------------------------------
 # variant B: history on the same handler objects
 
-H_KINDS = ("complete", "cancel_src", "cancel_dst", "silence", "abandon", "leave_busy", "junk")
+H_KINDS = ("complete", "cancel_src", "cancel_dst", "silence", "abandon", "leave_busy", "junk", "scripted_large")
+
+
+def _scripted_large_history(w, t, hist_log) -> None:
+    """An earlier transaction of a peer that uses the large-file PDU format (legal for any file size) and loses most of its
+    File Data PDUs: the receiver goes through a deferred NAK sequence with 16-byte segment requests, then the peer gives up
+    and the receiving user resets the handler. Whatever the receiver computed for that PDU format must not reach T."""
+    from props.gridpop import Script
+
+    c = w.cfg
+    crcb = 2 if c.crc else 0
+    if c.metadata_only or c.mode != ACK or c.mpl < c.hdr_len + 1 + 16 + 16 + crcb:
+        hist_log.append("scripted_large/skipped")
+        return
+    b = w.b
+    sc = Script(w, t, dst="dst/hl.bin", large=True, seq_off=91)
+    hist_log.append(f"scripted_large/{len(sc.tiles)}")
+    w.deliver(b, sc.md)
+    keep = t.choose(3, "scripted history keeps every nth tile") + 2
+    for i, x in enumerate(sc.tiles):
+        if i % keep == 0:
+            w.deliver(b, x[2])
+    w.deliver(b, sc.eof)
+    for _ in range(3):
+        w.poll(b, "dst")
+    w.clock.now_ms += int(c.nak_s * 1000) + 10
+    w.poll(b, "dst")
+    h = b.handlers["dst"]
+    if h.state.name != "IDLE":
+        h.reset()
+        while h.get_next_packet() is not None:
+            pass
+        b.note_state("dst", type("S", (), {"busy": False, "tid": None})())
+    w.heap.clear()
+    w.pending = 0
+    w.polls_stopped = True
+    w.clock.now_ms += 50
 
 
 def run_history(w, t, hist_log):
@@ -197,7 +233,10 @@ def run_history(w, t, hist_log):
     unfinished = 0
     restore_src = []
     for i in range(n):
-        kind = H_KINDS[t.weighted([3, 2, 2, 2, 2, 2, 2], "history kind")]
+        kind = H_KINDS[t.weighted([3, 2, 2, 2, 2, 2, 2, 1], "history kind")]
+        if kind == "scripted_large":
+            _scripted_large_history(w, t, hist_log)
+            continue
         junk_abandon = kind == "junk" and t.choose(2, "junk with abandon handlers") == 1
         mode = [ACK, UNACK][t.choose(2, "history mode")]
         closure = bool(t.choose(2, "history closure"))
